@@ -47,7 +47,7 @@ func genCase(t *rapid.T) Case {
 		}
 	}
 	if rapid.IntRange(0, 5).Draw(t, "span") == 0 {
-		spans := []string{"add-schema", "drop-schema", "modify-schema", "modify-other-schema", "two-schemas"}
+		spans := []string{"add-schema", "drop-schema", "modify-schema", "modify-other-schema", "two-schemas", "two-schemas-differing-by-case", "modify-other-schema-differing-by-case"}
 		c.Span = rapid.SampledFrom(spans).Draw(t, "spankind")
 	}
 	return c
@@ -98,7 +98,7 @@ func TestCheck(t *testing.T) {
 						return
 					}
 				}
-				spans := []string{"add-schema", "drop-schema", "modify-schema", "modify-other-schema", "two-schemas"}
+				spans := []string{"add-schema", "drop-schema", "modify-schema", "modify-other-schema", "two-schemas", "two-schemas-differing-by-case", "modify-other-schema-differing-by-case"}
 				for _, sp := range spans {
 					if !ev.Each(col, "enumerated", Case{Dialect: d, Base: base, Scenario: "create", Qualifier: q, Mode: mode, Span: sp}, check, known) {
 						return
